@@ -74,7 +74,9 @@ def gen_grep_model(rng, nfiles=None, ambiguous_ok=False):
         for _ in range(rng.randint(1, 6)):
             ln += rng.randint(1, 30)
             code = gen.rand_text(rng, 60, allow_empty=False)
-            while code.strip() == '':
+            import re as _re
+            while code.strip() == '' or (not ambiguous_ok and _re.search(r'[^ ]\.[^. :=-]{1,10}[:=-]|^[-=:]|\.\w+[:=-]\d+[:=-]', code)):
+                # (not ambiguous_ok: outside the shapes for which plain grep text is misread - see the C16 findings)
                 code = gen.rand_text(rng, 60, allow_empty=False)
             kind = 'match' if rng.random() < 0.7 else 'context'
             subs = []
